@@ -296,6 +296,17 @@ class _CbKw:
         return self.core(intermediate_result.x, intermediate_result)
 
 
+class _CbMethods:
+    def __init__(self, core):
+        self.core = core
+
+    def pos(self, xk):
+        return self.core(xk, None)
+
+    def kw(self, intermediate_result):
+        return self.core(intermediate_result.x, intermediate_result)
+
+
 def _cb_partial_pos(core, xk):
     return core(xk, None)
 
@@ -343,6 +354,14 @@ def make_callback(cb, lg, hook=None):
         return _CbPos(core)
     if form == "obj_kw":
         return _CbKw(core)
+    if form == "method_pos":
+        return _CbMethods(core).pos
+    if form == "method_kw":
+        return _CbMethods(core).kw
+    if form == "kwonly_kw":
+        def callback(*, intermediate_result):
+            return core(intermediate_result.x, intermediate_result)
+        return callback
     if form == "partial_pos":
         return functools.partial(_cb_partial_pos, core)
     if form == "partial_kw":
@@ -350,7 +369,9 @@ def make_callback(cb, lg, hook=None):
     raise ValueError(form)
 
 
-CB_KW_FORMS = ("kw", "lambda_kw", "obj_kw", "partial_kw")
+CB_KW_FORMS = ("kw", "lambda_kw", "obj_kw", "partial_kw", "method_kw", "kwonly_kw")
+CB_FORMS = ["pos", "kw", "lambda_pos", "lambda_kw", "obj_pos", "obj_kw", "partial_pos", "partial_kw", "method_pos",
+            "method_kw", "kwonly_kw"]
 
 # ---------------------------------------------------------------------------------------------
 # the user's statement of the constraints, evaluated by the harness
@@ -685,8 +706,7 @@ def problems(draw, profile=None):
         options["target"] = draw(dy(-8, 8))
     callback = {"form": "none"}
     if pct(P["callback_prob"]):
-        callback = {"form": draw(st.sampled_from(["pos", "kw", "lambda_pos", "lambda_kw", "obj_pos", "obj_kw",
-                                                  "partial_pos", "partial_kw"]))}
+        callback = {"form": draw(st.sampled_from(CB_FORMS))}
         if pct(P["stop_prob"]):
             callback["stop_at"] = draw(st.integers(1, max(1, options["maxfev"])))
         if pct(25):
